@@ -22,7 +22,12 @@ func init() {
 	})
 }
 
+var abbrevPrintExtra []string
+
 func abbrevPrint(s string) string {
+	if len(abbrevPrintExtra) > 0 {
+		s = strings.NewReplacer(abbrevPrintExtra...).Replace(s)
+	}
 	return strings.NewReplacer(
 		"(*lang.Evaluator).evalExprList(e, stmt.(*lang.StatementPrint)#0.Args, false)#0", "A",
 		"(*lang.Evaluator).evalExprList(e, stmt.(*lang.StatementPrint)#0.Args, false)#1", "Aerr",
@@ -57,6 +62,36 @@ func runC17(c *Ctx) {
 		return
 	}
 	region := caseRegion(*arm)
+	// the arm may hand the statement to a helper of its own (`return e.evalPrintStatement(st)`): the
+	// skeleton is then the helper's
+	printParam := ""
+	for _, call := range callsIn(es) {
+		if !region[call.Block()] {
+			continue
+		}
+		h := call.Common().StaticCallee()
+		if h == nil || h == es || !p.InLang(h) || len(h.Blocks) == 0 || !isPrivateTo(p, h, es) || h.Signature.Results().Len() != 1 || !isErrorType(h.Signature.Results().At(0).Type()) {
+			continue
+		}
+		for i, a := range call.Common().Args {
+			if strings.Contains(p.Render(a), "StatementPrint") && i < len(h.Params) {
+				printParam = h.Params[i].Name()
+				es = h
+				region = map[*ssa.BasicBlock]bool{}
+				for _, b := range h.Blocks {
+					region[b] = true
+				}
+			}
+		}
+	}
+	if printParam != "" {
+		prev := abbrevPrintExtra
+		abbrevPrintExtra = []string{
+			"(*lang.Evaluator).evalExprList(e, " + printParam + ".Args, false)#0", "A",
+			"(*lang.Evaluator).evalExprList(e, " + printParam + ".Args, false)#1", "Aerr",
+		}
+		defer func() { abbrevPrintExtra = prev }()
+	}
 	// the writes as events: emit(S) = the string S goes to the evaluator's writer, unchanged — written as
 	// Fprint(stdout, S), Fprintf(stdout, "%s", S) or Evaluator.print(S); emitln(S) = Fprintln(stdout, S). A
 	// string chosen by a branch (`text := "null"; if cell != nil { text = … }`) is one event per way.
